@@ -68,3 +68,87 @@ Fixpoint py_for_raise (xs : list pyval) (test : pyval -> res pyval) (e : exc) : 
   end.
 Definition py_iter (v : pyval) : res (list pyval) :=
   match v with VList l => Ok l | _ => Unmodelled end.
+
+(* [elt(x) for x in xs if test(x)] — evaluated left to right; the first error ends it *)
+Fixpoint py_listcomp (xs : list pyval) (test elt : pyval -> res pyval) : res (list pyval) :=
+  match xs with
+  | [] => Ok []
+  | x :: r => b <- test x ;;
+              if py_truthy b then (v <- elt x ;; t <- py_listcomp r test elt ;; Ok (v :: t)) else py_listcomp r test elt
+  end.
+
+(* o.f("c1", .., "cn") for an ENVIRONMENT function f of the object (upstream_get: the link to the enclosing server
+   object).  What it returns is not defined by the translated function; the injected object carries the graph of f on
+   the constant arguments the code passes, as nested dicts: field f = {"c1": {.. {"cn": value}}}.  Arguments the
+   injection does not provide are outside the modelled fragment. *)
+Fixpoint py_env_lookup (g : pyval) (args : list pystr) : res pyval :=
+  match args with
+  | [] => Ok g
+  | a :: r => match g with
+              | VDict m => match assoc a m with Some v => py_env_lookup v r | None => Unmodelled end
+              | _ => Unmodelled
+              end
+  end.
+Definition py_call_env (o : pyval) (f : pystr) (args : list pystr) : res pyval :=
+  g <- py_getattr o f ;; py_env_lookup g args.
+
+(* for x in xs: <body>  with continue / break / return and ONE variable carried between iterations: the body maps
+   (element, carried value) to what happens next; the loop ends with inl (carried value) or inr (returned value) *)
+Inductive loop_ctl := LNext (s : pyval) | LBreak (s : pyval) | LReturn (v : pyval).
+Fixpoint py_for (xs : list pyval) (body : pyval -> pyval -> res loop_ctl) (s : pyval) : res (pyval + pyval) :=
+  match xs with
+  | [] => Ok (inl s)
+  | x :: r => c <- body x s ;;
+              match c with LNext s' => py_for r body s' | LBreak s' => Ok (inl s') | LReturn v => Ok (inr v) end
+  end.
+(* a, b = x  (x a list / tuple of exactly n elements) *)
+Definition py_unpack (x : pyval) (n : nat) : res (list pyval) :=
+  match x with VList l => if Nat.eqb (length l) n then Ok l else Err ValueError | _ => Unmodelled end.
+(* d.items(), d.keys() as lists in insertion order; list(x) *)
+Definition py_items (d : pyval) : res pyval :=
+  match d with
+  | VDict m => Ok (VList (List.map (fun kv => VList [VStr (fst kv); snd kv]) m))
+  | VNone | VBool _ | VInt _ | VStr _ | VList _ => Err AttributeError
+  | _ => Unmodelled
+  end.
+Definition py_keys (d : pyval) : res pyval :=
+  match d with
+  | VDict m => Ok (VList (List.map (fun kv => VStr (fst kv)) m))
+  | VNone | VBool _ | VInt _ | VStr _ | VList _ => Err AttributeError
+  | _ => Unmodelled
+  end.
+Definition py_list (x : pyval) : res pyval :=
+  match x with VList l => Ok (VList l) | VStr s => Ok (VList (List.map (fun c => VStr [c]) s)) | _ => Unmodelled end.
+(* x is True / x is False *)
+Definition py_is_bool (a : pyval) (b : bool) : res pyval :=
+  Ok (VBool (match a with VBool x => Bool.eqb x b | _ => false end)).
+
+(* len(x); s.split(sep) for a separator of one or two characters; l.append(x) on an un-aliased list (l = l + [x]) *)
+Definition py_len (x : pyval) : res pyval :=
+  match x with
+  | VStr s => Ok (VInt (Z.of_nat (length s)))
+  | VList l => Ok (VInt (Z.of_nat (length l)))
+  | VDict d => Ok (VInt (Z.of_nat (length d)))
+  | VNone | VBool _ | VInt _ => Err TypeError
+  | VObj _ => Unmodelled
+  end.
+Definition py_split (x sep : pyval) : res pyval :=
+  match x, sep with
+  | VStr s, VStr [] => Err ValueError
+  | VStr s, VStr [a] => Ok (VList (List.map VStr (split_c a s)))
+  | VStr s, VStr [a; b] => Ok (VList (List.map VStr (split_cc a b s)))
+  | _, _ => Unmodelled
+  end.
+Definition py_append (l x : pyval) : res pyval :=
+  match l with VList xs => Ok (VList (xs ++ [x])) | _ => Unmodelled end.
+
+(* random draws (rndstr): successive results are an explicit finite supply; a draw from the empty supply is OutOfFuel.
+   x = draw()                       -> py_draw
+   while test(x): x = draw()        -> py_redraw: the source loop has no bound, the translation recurses on the supply *)
+Definition py_draw (draws : list pyval) : res (pyval * list pyval) :=
+  match draws with [] => Err OutOfFuel | d :: r => Ok (d, r) end.
+Fixpoint py_redraw (test : pyval -> res pyval) (x : pyval) (draws : list pyval) : res (pyval * list pyval) :=
+  match draws with
+  | [] => b <- test x ;; if py_truthy b then Err OutOfFuel else Ok (x, [])
+  | d :: r => b <- test x ;; if py_truthy b then py_redraw test d r else Ok (x, draws)
+  end.
